@@ -676,6 +676,12 @@ func (e *Engine) notAViolation(f *Obligation, name string, base map[string]Shape
 			}
 			continue
 		}
+		if cur := e.shapeOf(fn); cur.Loops != b.Loops && (strings.Contains(name, "/loop") || strings.Contains(f.Note, "`loop ")) {
+			return fmt.Sprintf("%s now has %d loops where the baseline has %d: rules and invariants attached to loops by ordinal no longer denote the loops they were written for", k, cur.Loops, b.Loops)
+		}
+		if f.Kind == "arith" && !sameShape(b, e.shapeOf(fn)) {
+			return "assume:machine arithmetic treated as mathematical in " + k + " (its structure differs from the baseline; no-overflow obligation " + name + " not discharged)"
+		}
 		if proofInternal[f.Kind] && !sameShape(b, e.shapeOf(fn)) {
 			return "the structure of " + k + " (loops, closures, captured variables, signature) differs from the baseline its proof was written against"
 		}
